@@ -251,7 +251,7 @@ def check_C08(tier, seed, rest):
         defs.append(corpus.mk("ovl%d_%d" % (seed, k), leaves, tags=["overlap"]))
     defs_path, metas, capdir = capture(defs, "amb")
     res = run_tlc("Amb.tla", "Amb.cfg", {"DEFS": defs_path}, workers=8, metaname="amb")
-    recs = tlc_records(res["out"])
+    recs = tlc_records(res)
     ties = {}
     wit = {}
     for tag, sub, rec in recs:
@@ -413,7 +413,7 @@ def check_C04(tier, seed, rest):
     defs_path, metas, _ = capture(defs, "base")
     res = run_tlc("RefUtf8.tla", "RefUtf8.cfg", {"DEFS": defs_path}, workers=8, metaname="refutf8")
     bad = {}
-    for tag, sub, rec in tlc_records(res["out"]):
+    for tag, sub, rec in tlc_records(res):
         if tag == "NONUTF8":
             bad.setdefault(rec["d"], {}).setdefault(rec["leaf"], rec["path"])
     n_non = 0
@@ -485,7 +485,7 @@ def source_read_check(bins):
     res = run_tlc("SourceRead.tla", "SourceRead.cfg", {}, workers=4, metaname="srcread")
     if not res["ok"]:
         raise ToolError("SourceRead.tla: BoundsRule violated in the model:\n" + res["out"][-2000:])
-    cases = [r[2] for r in tlc_records(res["out"]) if r[0] == "READ"]
+    cases = [r[2] for r in tlc_records(res) if r[0] == "READ"]
     reqs = []
     for c in cases:
         off = c["off"]
@@ -609,7 +609,7 @@ def check_C12(tier, seed, rest):
     defs_path, metas, _ = capture(base_corpus(tier, seed), "base")
     res = run_tlc("RefUtf8.tla", "RefUtf8.cfg", {"DEFS": defs_path}, workers=8, metaname="refutf8")
     bad = {}
-    for tag, sub, rec in tlc_records(res["out"]):
+    for tag, sub, rec in tlc_records(res):
         if tag == "NONUTF8":
             bad.setdefault(rec["d"], set()).add(rec["leaf"])
     n_b = 0
